@@ -609,6 +609,11 @@ func (c *compiler) buildLA(useTransitions, stats bool) {
 			for is := len(states) - 1; is >= 0; is, i = is-1, i-1 {
 				curr, sym := states[is], c.right[i]
 				if sym < c.grammar.Terminals {
+					if useTransitions {
+						// A trailing terminal transition is followed by whatever follows the rule
+						// (needed to chain lookahead beyond the first token for LALR(k)).
+						g[gt] = append(g[gt], c.selectGoto(curr, Sym(sym)))
+					}
 					break
 				}
 				// Inner rule's goto inherits outer follow set.
